@@ -60,11 +60,6 @@ def check_matching(rep, name, th, h, vw, tier, prop="C02"):
     if not ok or err > BACKWARD_TOL:
         rep.violation(f"returned {branch} matching is not within tolerance of a solution of the conservation laws "
                       f"(backward error {err:.3g})", info, finding_key=f"{prop}:conservation:{branch}")
-    # all FOUR returned numbers together (the hybrid polish re-derives v- from T-, so it does not see a wrong returned v-)
-    rmax = max(abs(res[0]), abs(res[1])) if len(res) == 2 else math.inf
-    if rmax > 20 * BACKWARD_TOL:
-        rep.violation(f"returned (v+, v-, T+, T-) of the {branch} matching carry unequal fluxes (relative mismatch {rmax:.3g})",
-                      info, finding_key=f"{prop}:flux-residual:{branch}")
     return info
 
 
